@@ -162,7 +162,7 @@ func valid(c *Case) bool {
 	for _, t := range Types {
 		okT = okT || t == c.T
 	}
-	if !okT || c.C < 1 || c.C > 8 || c.F < 0 || c.F > 2048 || c.RO < 0 || c.RO > c.F || len(c.Bounds) != len(c.Writers)+1 ||
+	if !okT || c.C < 1 || c.C > 8 || c.F < 0 || c.F > 1<<17 || c.RO < 0 || c.RO > c.F || len(c.Bounds) != len(c.Writers)+1 ||
 		len(c.Readers)+len(c.Writers) > 16 || len(c.Readers)+len(c.Writers) < 1 || len(c.Yield) != len(c.Readers)+len(c.Writers) ||
 		c.Procs < 1 || c.Procs > 64 || c.Repeat < 1 || c.Repeat > 50 {
 		return false
